@@ -301,6 +301,8 @@ var hazardPrograms = []string{
 	"switch (1) { case 0: function sf() { return 1 } case 1: $p(typeof sf, sf()) } $p(typeof sf);",
 	"var za = 1; try { za++\n($p(1)) } catch (e) { $p(e.constructor.name) } $p(za);",
 	"function* yg() { var x = yield\n+$p(4)\nreturn x } var yi = yg(); $p(yi.next().value, yi.next(5).value);",
+	"var zb = 1; zb--\n`x`.length; zb++\n[$p(2)].length; $p(zb); var zc = zb++\n($p(3)); $p(zc);",
+	"function* yh() { var x = yield\n($p(5))\nvar y = yield\n[$p(6)].length\nvar z = yield\n`t`\nvar w = yield\n/2/.test(\"2\") && $p(7)\nreturn [x, y, z, w] } var yj = yh(); $p(yj.next().value, yj.next(1).value, yj.next(2).value, yj.next(3).value, yj.next(4).value);",
 	"$p(typeof q1); { let q1 = 1; { function q1() {} } } $p(typeof q1); { function q2() { return 1 } $p(q2()) } $p(q2()); switch (1) { case 0: function q3() {} } $p(typeof q3); try { throw 0 } catch (q4) { { function q5() {} } } $p(typeof q5); if (1) function q6() {} $p(typeof q6); lbl: function q7() {} $p(typeof q7);",
 	"function g() { 1; 'use strict'; return this === undefined } function h() { ; 'use strict'; return this === undefined } function i() { 'use strict' + ''; return this === undefined } function j() { `use strict`; return this === undefined } $p(g(), h(), i(), j());",
 	"$p(((a, b) => a + b)(1, 2), (a => a)(1), (() => ({}))(), (() => { return {} })(), (async () => 1)() instanceof Promise, ((a = 1, {b} = {b: 2}, ...c) => [a, b, c])());",
@@ -333,7 +335,7 @@ var hazardPrograms = []string{
 // therefore run last and in few variants, so that they cannot crowd other
 // failures out of the failure list)
 func replaysKnownFinding(src string) bool {
-	for _, m := range []string{"use\\x20strict", "use\\u0020strict", "('use strict')", "'a' + 'b'; 'use strict'", "continue; function f", "za++\n(", "yield\n+"} {
+	for _, m := range []string{"use\\x20strict", "use\\u0020strict", "('use strict')", "'a' + 'b'; 'use strict'", "continue; function f"} {
 		if strings.Contains(src, m) {
 			return true
 		}
@@ -428,12 +430,6 @@ func glueNodeLiterals(r *Rng, st *Stats, n int) {
 		input := map[string]string{"program": c.src, "options": c.desc, "output": c.out}
 		if strings.Contains(c.src, "continue; function f") && hoistsBlockFunction(c.out) {
 			input["scenario"] = "annexb-block-function-var-assigned-at-block-entry"
-		}
-		if strings.Contains(c.src, "za++\n(") && strings.Contains(c.out, "(za++)") {
-			input["scenario"] = "asi-after-postfix-update-before-bracket-paren-template"
-		}
-		if strings.Contains(c.src, "yield\n+") && strings.Contains(c.out, "(yield)") {
-			input["scenario"] = "yield-followed-by-newline-continued-as-operand"
 		}
 		if strings.HasPrefix(c.out, "\x00ERR:") {
 			st.Fail("valid-program-rejected", input, c.out[1:], "accepted")
@@ -735,7 +731,6 @@ func glueASI(r *Rng, st *Stats, n int) {
 		st.Fail("node-oracle-unavailable", err.Error(), nil, nil)
 		return
 	}
-	reported, reportedY := 0, 0
 	for k, c := range cs {
 		a, b := results[2*k], results[2*k+1]
 		if oracleNoise(a) || oracleNoise(b) {
@@ -749,36 +744,11 @@ func glueASI(r *Rng, st *Stats, n int) {
 		st.Note("asi:"+c.Shape, c.Src, true)
 		input := map[string]string{"program": c.Src, "output": outs[k], "shape": c.Shape}
 		if strings.HasPrefix(outs[k], "\x00") {
-			if c.PostfixLT {
-				st.Histogram["known-shape:asi-after-postfix-update(rejected)"]++
-				continue
-			}
-			if c.YieldLT {
-				// same root cause as known finding J: the next line is read as a
-				// continuation of `yield` (here `/` as a division) and then fails to parse
-				st.Histogram["known-shape:yield-newline-continued(rejected)"]++
-				continue
-			}
 			st.Fail("valid-program-rejected", input, outs[k][1:], "accepted")
 			continue
 		}
 		if a.Same(b) {
 			continue
-		}
-		if c.PostfixLT {
-			st.Histogram["known-shape:asi-after-postfix-update"]++
-			reported++
-			if reported > 1 {
-				continue
-			}
-			input["scenario"] = "asi-after-postfix-update-before-bracket-paren-template"
-		} else if c.YieldLT && strings.Contains(outs[k], "(yield)") {
-			st.Histogram["known-shape:yield-newline-continued"]++
-			reportedY++
-			if reportedY > 1 {
-				continue
-			}
-			input["scenario"] = "yield-followed-by-newline-continued-as-operand"
 		}
 		if stillDiffers(c.Src, outs[k]) {
 			st.Fail("behaviour-differs", input, b.String(), a.String())
